@@ -240,6 +240,96 @@ theorem documentLink_rangeOK_partial (utf16 : Bool) (doc : Txt) (j : Journal) (f
     obtain ⟨i, hi, rfl⟩ := hx
     exact node_rangeOK ht (inc_range_mem hi) (hg i hi)
 
+/-- Document links with repo_patches/fix-link-range.diff: whenever the path is written on the
+    directive's line after the keyword, the link range covers exactly the path — in UTF-16
+    units, whatever precedes it on the line, with or without a CR at the line end. -/
+theorem documentLink_covers (doc : Txt) (inc : Include) (line : Txt) (kw p : Nat)
+    (h0 : inc.range.start.line ≠ 0)
+    (hl : (lines doc)[inc.range.start.line - 1]? = some line)
+    (hk : indexOf "include".toList line 0 = some kw)
+    (hp : indexOf (decodeUtf8 inc.path) (line.drop (kw + 7)) (kw + 7) = some p)
+    (hcr : '\r' ∉ decodeUtf8 inc.path) (hne : decodeUtf8 inc.path ≠ [])
+    (hs1 : inc.range.start.line - 1 < 4294967296) (hs2 : u16len line < 4294967296) :
+    covers doc (toN (includePathRange doc inc)) (decodeUtf8 inc.path) = true := by
+  have hpath : ∀ x, x = decodeUtf8 inc.path → covers doc (toN (includePathRange doc inc)) x = true := by
+    intro path hpe
+    rw [← hpe] at hp hcr hne
+    obtain ⟨i1, i2, i3⟩ := indexOf_spec hp
+    simp only [List.length_drop] at i2
+    rw [List.drop_drop] at i3
+    have hpos : kw + 7 + (p - (kw + 7)) = p := by omega
+    rw [hpos] at i3
+    have hplen0 : 0 < path.length := List.length_pos_iff.mpr hne
+    have hend : p + path.length ≤ line.length := by omega
+    -- the path region does not reach a trailing CR
+    have hstrip : p + path.length ≤ (stripCR line).length := by
+      unfold stripCR
+      split
+      · rename_i hlast
+        simp only [List.length_dropLast]
+        rcases Nat.lt_or_ge (p + path.length) line.length with hlt | hge
+        · omega
+        · exfalso
+          have heq : p + path.length = line.length := by omega
+          have hplen : 0 < path.length := List.length_pos_iff.mpr hne
+          -- the last char of the line is the last char of the path
+          have hlast' : line.getLast? = path.getLast? := by
+            have hd : line.drop p = path := by
+              have : (line.drop p).length = path.length := by simp; omega
+              rw [← i3, List.take_of_length_le (by omega)]
+            have : line = line.take p ++ path := by rw [← hd]; simp
+            rw [this, List.getLast?_append]
+            cases hpl : path.getLast? with
+            | none => simp [List.getLast?_eq_none_iff] at hpl; exact absurd hpl hne
+            | some x => simp
+          rw [hlast] at hlast'
+          have := List.mem_of_getLast? hlast'.symm
+          exact hcr this
+      · exact hend
+    obtain ⟨suf, hsuf⟩ := stripCR_prefix line
+    have htk : ∀ n, n ≤ (stripCR line).length → line.take n = (stripCR line).take n := by
+      intro n hn
+      have e : line.take n = (stripCR line ++ suf).take n := by rw [← hsuf]
+      rw [e, List.take_append_of_le_length hn]
+    have hdrop : ((stripCR line).drop p).take path.length = path := by
+      have e1 : (line.take (p + path.length)).drop p = (line.drop p).take path.length := by
+        rw [List.drop_take]; congr 1; omega
+      have e2 : ((stripCR line).take (p + path.length)).drop p = ((stripCR line).drop p).take path.length := by
+        rw [List.drop_take]; congr 1; omega
+      rw [← e2, ← htk _ hstrip, e1, i3]
+    have hu : u16len (line.take p) + u16len path = u16len ((stripCR line).take (p + path.length)) := by
+      rw [u16len_take_add, hdrop, htk p (by omega)]
+    have hle1 : u16len (line.take p) ≤ u16len line := by
+      have := u16len_take_mono line (Nat.le_of_lt_succ (Nat.lt_succ_of_le (by omega : p ≤ line.length))) (Nat.le_refl _)
+      simpa using this
+    have hle2 : u16len (line.take p) + u16len path ≤ u16len line := by
+      have := u16len_take_mono line hend (Nat.le_refl _)
+      rw [u16len_take_add, i3] at this
+      simpa using this
+    unfold includePathRange
+    simp only [h0, if_false, hl, hk, ← hpe, hp]
+    have e1 : (UInt32.ofNat (inc.range.start.line - 1)).toNat = inc.range.start.line - 1 := by
+      rw [UInt32.toNat_ofNat']; omega
+    have e2 : (UInt32.ofNat (u16len (line.take p))).toNat = u16len (line.take p) := by
+      rw [UInt32.toNat_ofNat']; omega
+    have e3 : (UInt32.ofNat (u16len (line.take p) + u16len path)).toNat = u16len (line.take p) + u16len path := by
+      rw [UInt32.toNat_ofNat']; omega
+    simp only [covers, rangeOK, slice, toN, e1, e2, e3, posOK, docLines_get, hl, Option.map_some, charsOfUnits,
+      ne_eq, not_true_eq_false, if_false, Bool.and_eq_true, beq_iff_eq]
+    rw [hu, charsOf_u16_take _ _ hstrip, htk p (by omega), charsOf_u16_take _ _ (by omega)]
+    simp only [Option.isSome_some, leqPos, Bool.or_eq_true, Bool.and_eq_true, decide_eq_true_eq, beq_self_eq_true,
+      true_and, Nat.le_add_right, if_true, Nat.add_sub_cancel_left, hdrop, and_true]
+    right
+    rw [← htk p (by omega), ← hu]; omega
+  exact hpath _ rfl
+
+/-- Non-vacuity: `include год/😀.journal` preceded by nothing, and the repaired range. -/
+example :
+    let doc := "include a😀.journal\n".toList
+    let inc : Include := ⟨[97, 240, 159, 152, 128, 46, 106, 111, 117, 114, 110, 97, 108], ⟨⟨1, 1, 0⟩, ⟨1, 19, 21⟩⟩⟩
+    toN (includePathRange doc inc) = ⟨0, 8, 0, 19⟩ ∧
+    covers doc (toN (includePathRange doc inc)) "a😀.journal".toList = true := by decide
+
 /-- Diagnostics: parse errors, analyzer diagnostics (ranges of postings, transactions,
     commodities and tags — all stored in the tree), include errors. -/
 theorem diagnostics_rangeOK_partial (utf16 : Bool) (doc : Txt) (j : Journal)
